@@ -1,26 +1,10 @@
 (* Round trips of the text forms (Bech32Iface.v). *)
 From CSL Require Import Base.Prelude Cbor.Head Cbor.HeadProofs Addr.Crc32 Addr.Crc32Proofs Addr.Byron Addr.ByronProofs
-  Addr.Base58 Addr.Base58Proofs Addr.VarNat Addr.VarNatProofs Addr.Shelley Addr.ShelleyProofs Addr.Bech32Iface.
+  Addr.Base58 Addr.Base58Proofs Addr.VarNat Addr.VarNatProofs Addr.Shelley Addr.ShelleyProofs Addr.Bech32Iface
+  Addr.Bech32 Addr.Bech32Proofs.
 Local Open Scope N_scope.
 
-Section Bech32.
-  (* the external crate *)
-  Variable b32_encode : list N -> bytes -> option (list N).
-  Variable b32_decode : list N -> option (list N * bytes).
-  (* its law: what encode produced decodes to the same payload (under some spelling of the prefix) *)
-  Hypothesis b32_law : forall hrp data s, b32_encode hrp data = Some s ->
-    exists hrp', b32_decode s = Some (hrp', data).
 
-  (* C11_bech32: for every prefix, given or default *)
-  Theorem bech32_roundtrip prefix a s : wf_address a ->
-    to_bech32 b32_encode prefix a = Ok s -> from_bech32 b32_decode s = Ok a.
-  Proof.
-    intros Hwf H. unfold to_bech32 in H.
-    destruct (match prefix with Some p => Ok p | None => default_prefix a end) as [p| | |]; cbn [bind] in H; try discriminate.
-    destruct (b32_encode p (to_bytes a)) as [s'|] eqn:E; [|discriminate]. injection H as <-.
-    destruct (b32_law _ _ _ E) as [hrp' D]. unfold from_bech32. rewrite D. apply address_roundtrip, Hwf.
-  Qed.
-End Bech32.
 
 (* the default prefix is a function of kind and network id *)
 Theorem default_prefix_table a :
@@ -87,6 +71,52 @@ Proof.
   - destruct Hwf as (Hn & [_ Hp]). constructor; [destruct p; cbn; lia|exact Hp].
   - apply byron_encode_ok, Hwf.
   - destruct Hwf.
+Qed.
+
+Section Bech32.
+  (* the external crate *)
+  Variable b32_encode : list N -> bytes -> option (list N).
+  Variable b32_decode : list N -> option (list N * bytes).
+  (* its law: what encode produced decodes to the same payload (under some spelling of the prefix) *)
+  Hypothesis b32_law : forall hrp data s, bytes_ok data -> b32_encode hrp data = Some s ->
+    exists hrp', b32_decode s = Some (hrp', data).
+
+  (* C11_bech32: for every prefix, given or default *)
+  Theorem bech32_roundtrip prefix a s : wf_address a ->
+    to_bech32 b32_encode prefix a = Ok s -> from_bech32 b32_decode s = Ok a.
+  Proof.
+    intros Hwf H. unfold to_bech32 in H.
+    destruct (match prefix with Some p => Ok p | None => default_prefix a end) as [p| | |]; cbn [bind] in H; try discriminate.
+    destruct (b32_encode p (to_bytes a)) as [s'|] eqn:E; [|discriminate]. injection H as <-.
+    destruct (b32_law _ _ _ (to_bytes_ok a Hwf) E) as [hrp' D]. unfold from_bech32. rewrite D. apply address_roundtrip, Hwf.
+  Qed.
+End Bech32.
+
+(* ---- the same WITHOUT the premise: the model of the bech32 crate (Bech32.v) satisfies the law ---- *)
+Lemma bech32_model_law : forall hrp data s, bytes_ok data -> Bech32.b32_encode hrp data = Some s ->
+  exists hrp', Bech32.b32_decode s = Some (hrp', data).
+Proof.
+  intros hrp data s Hok H. destruct (b32_roundtrip hrp data s Hok H) as (c & _ & D). eauto.
+Qed.
+
+Theorem bech32_roundtrip_concrete prefix a s : wf_address a ->
+  to_bech32 Bech32.b32_encode prefix a = Ok s -> from_bech32 Bech32.b32_decode s = Ok a.
+Proof. apply (bech32_roundtrip Bech32.b32_encode Bech32.b32_decode bech32_model_law). Qed.
+
+(* with the default prefix the text form always exists (every CIP5 prefix the library picks is a valid HRP) *)
+Theorem to_bech32_default_total a p : default_prefix a = Ok p ->
+  exists s, to_bech32 Bech32.b32_encode None a = Ok s.
+Proof.
+  intros Hp. unfold to_bech32. rewrite Hp. cbn [bind].
+  assert (Hc : exists c, check_hrp p = Ok c).
+  { unfold default_prefix in Hp.
+    destruct a as [net q s|net q r|net q|net q|b|m]; cbn [network_id bind] in Hp;
+      try (injection Hp as <-; match goal with |- context [if ?c then _ else _] => destruct c end;
+           eexists; vm_compute; reflexivity).
+    - destruct (byron_network_id b) as [n| | |]; cbn [bind] in Hp; try discriminate.
+      injection Hp as <-. destruct (n =? 0); eexists; vm_compute; reflexivity.
+    - injection Hp as <-. eexists; vm_compute; reflexivity. }
+  destruct Hc as [c Hc]. destruct (b32_encode_total p (to_bytes a) c Hc) as [s Hs]. rewrite Hs. eauto.
 Qed.
 
 (* what a well-formed address writes is classified as itself by its own header *)
